@@ -591,6 +591,13 @@ def _classify_axis_paths(t: AxisTable):
             (guards if is_guard else region).append((cond, choice))
         p.aux["guards"] = guards
         p.aux["region"] = tuple((str(c), ch) for c, ch in region)
+        # facts of the region *without* the guard decisions: obligations on cells and weights
+        # must hold on the whole region, in particular at cell centres (d = 0), which the
+        # un-clipped path excludes
+        rf = base
+        for c, ch in region:
+            rf = rf.also(c if ch else negate(c))
+        p.aux["region_facts"] = rf
         p.aux["clipped"] = any(ch for _, ch in guards)
 
 
@@ -649,14 +656,15 @@ def check_axis(rep: Report, t: AxisTable) -> None:
     # -- per accepted region
     for i, p in enumerate(main):
         c0, c1, w0, w1 = p.aux["value"]
-        where = p.describe()
+        where = " and ".join(f"{'' if ch else 'not '}({c})" for c, ch in p.aux["region"]) or "always"
+        facts = p.aux["region_facts"]
         lab = f"{tag}:region{i}"
         ok = is_zero(w0 + w1 - 1)
         rep.oblige(f"{lab}:weights-sum-to-1", ok, f"{w0} + {w1}")
         if not ok:
             bad("axis-weights", "weights", f"weights ({w0}, {w1}) do not sum to 1 on {where}")
         try:
-            ok = p.facts.entails(sp.And(w0 >= 0, w1 >= 0))
+            ok = facts.entails(sp.And(w0 >= 0, w1 >= 0))
         except NonLinear:
             ok = False
         rep.oblige(f"{lab}:weights-nonnegative", ok, f"{w0}, {w1}")
@@ -666,7 +674,7 @@ def check_axis(rep: Report, t: AxisTable) -> None:
         size = N + 2 * g
         lo_i, hi_i = (g, N - 1 + g) if t.periodic else (0, size - 1)
         try:
-            ok = p.facts.entails(sp.And(c0 >= lo_i, c0 <= hi_i, c1 >= lo_i, c1 <= hi_i))
+            ok = facts.entails(sp.And(c0 >= lo_i, c0 <= hi_i, c1 >= lo_i, c1 <= hi_i))
         except NonLinear:
             ok = False
         rep.oblige(f"{lab}:index-range", ok, f"cells {c0}, {c1} in [{lo_i}, {hi_i}]")
@@ -700,7 +708,7 @@ def check_axis(rep: Report, t: AxisTable) -> None:
             # one cell only: allowed outside the hull of the cell centres of a bounded axis
             # without ghost cells, and it must be the cell that contains the point
             try:
-                ok = (not t.wg) and p.facts.entails(sp.Or(S <= 0, S >= N - 1)) and p.facts.entails(sp.And(v0 - HALF <= S, S <= v0 + HALF, v0 >= 0, v0 <= N - 1))
+                ok = (not t.wg) and facts.entails(sp.Or(S <= 0, S >= N - 1)) and facts.entails(sp.And(v0 - HALF <= S, S <= v0 + HALF, v0 >= 0, v0 <= N - 1))
             except NonLinear:
                 ok = False
             rep.oblige(f"{lab}:boundary-strip-nearest-cell", ok, f"cell {c0}")
@@ -1128,7 +1136,8 @@ def check_agreement(rep: Report, ix, cfg, n, periodic, tables, inserts, py):
             if p.aux.get("clipped"):
                 continue  # weights below the round-off guard: perturbation bounded in part A
             val = tuple(v.subs(ren, simultaneous=True) for v in p.aux["value"]) if p.aux["kind"] != "raise" else None
-            rows.append((p.aux["kind"], val, p.facts.rename(ren), p))
+            # region facts (guard decisions dropped): the comparison covers cell centres too
+            rows.append((p.aux["kind"], val, p.aux.get("region_facts", p.facts).rename(ren), p))
         per_axis.append(rows)
     n_cmp = 0
     for ip, p in enumerate(paths):
@@ -1219,7 +1228,7 @@ def check_composition(rep: Report, tables, formulas, refs) -> None:
                         eff_coord.append(c0 - g)
                     else:
                         eff_coord.append(k + d)
-                    centre.append(c0.subs(d, 0))
+                    centre.append((sp.Mod(k, Na) if periodic else k) + g)
                     shift[k] = k + Na
                 E = expr.subs(sub, simultaneous=True)
                 aff = E.replace(
